@@ -43,6 +43,9 @@ THEOREMS = [
     "C04.configure_tddl_own_partial",
 ]
 PARTIAL = {
+    "C04.rounds_independent": "needs every round to have at least one migration: the full statement - every sequence of rounds on one "
+                              "connection behaves like standalone runs - is false on the unchanged tree when a round has nothing to do "
+                              "(kernel-checked witness C04.round_without_migrations_leaves_txn, finding C04-F2)",
     "C04.configure_tddl_own_partial": "full statement C04.configure_tddl_own_statement (every configure() call of an env.py run gets its own "
                                       "transactional_ddl) is false on the unchanged tree (C04.configure_tddl_own_counterexample, finding C04-F1): "
                                       "proved only for calls that pass the argument",
@@ -717,6 +720,8 @@ def twodb_cases(ctx, script, engine_mode, calls, scratch, cfg, bases, all_positi
     res, ref, fins = twodb_execute(scratch, cfg, script, rev_index, bases, engine_mode, calls, None, pm_int, layout)
     ctx.evaluation()
     config = {"engine": engine_mode, "calls": [list(c) for c in calls], "template": layout, "pm_int": pm_int}
+    if layout == "rounds" and db0[0]["rows"]:
+        config["first_round_up_to_date"] = True
     if res != "ok" or ref.unparsed:
         ctx.disagree("online.reference", {"script": script, "runner": layout, "config": config}, {"res": res, "unparsed": ref.unparsed},
                      {"raised": False}, note="two-database run without injected failure raised")
@@ -727,20 +732,23 @@ def twodb_cases(ctx, script, engine_mode, calls, scratch, cfg, bases, all_positi
     seen = [ref.steps[gs[0]]["seen"] if gs else None for gs in gsteps]
     eff = ctx.drv.ask1({"op": "online.configure", "dialectDefault": False, "calls": [list(c) for c in calls]}).get("effective")
     for i in range(2):
-        if seen[i] is not None and seen[i] != eff[i]:
+        if seen[i] is not None and seen[i][:2] != eff[i]:
             ctx.disagree("online.configure", {"runner": layout, "config": config, "db": i}, {"flags_of_real_context": seen[i]},
                          {"flags": eff[i]}, note="settings reaching the MigrationContext of a later configure() call")
     own = [[bool(c[0]) if c[0] is not None else False, bool(c[1])] for c in calls]
 
     def base_inp(i, flags):
-        return {"mode": ENGINE_MODE[engine_mode], "tddl": flags[0], "perMig": flags[1], "external": False,
+        # the model mirrors the flags the real context had; an "external" transaction that no caller owns (an earlier
+        # round on the same connection left it open, finding C04-F2) is never committed: orphan
+        ext = bool(flags[2]) if len(flags) > 2 else False
+        return {"mode": ENGINE_MODE[engine_mode], "tddl": flags[0], "perMig": flags[1], "external": ext, "orphan": ext,
                 "pre": [{"k": "ddl", "a": ["cvt"]}] if not db0[i]["vt"] else [], "plan": plans[i],
                 "db": {k: db0[i][k] for k in ("objs", "rows", "vt")}, "upgrade": script["cmd"] == "upgrade", "parents": parents}
 
     def meta(i, gfail, flags):
         return {"runner": layout, "config": config, "script": script,
                 "multi": {"db": i, "fail": gfail, "own": own[i], "seen": flags},
-                "spec_cfg": {"tddl": own[i][0], "perMig": own[i][1]}}
+                "spec_cfg": {"tddl": own[i][0], "perMig": own[i][1], "external": False, "orphan": False}}
 
     for i in range(2):
         if seen[i] is not None:
@@ -762,7 +770,7 @@ def twodb_cases(ctx, script, engine_mode, calls, scratch, cfg, bases, all_positi
                         if i == e:
                             yield (dict(base_inp(i, flags_e), fail={"k": k, "pos": pos, "kind": kind}),
                                    {"res": res, "final": fins[i], "eff": [orc.step - gsteps[e][0], orc.pos]}, meta(i, [g, pos, kind], flags_e))
-                        elif i < e:
+                        elif i < e and seen[i] is not None:
                             # migrated completely and committed by its own context before the other database failed
                             yield dict(base_inp(i, seen[i]), fail=None), {"res": "ok", "final": fins[i], "eff": None}, meta(i, [g, pos, kind], seen[i])
                         else:
@@ -833,6 +841,35 @@ def rounds_battery(ctx, pending, thorough):
                         pending.append(case)
                         ctx.hist("steps", len(case[0]["plan"]))
                         ctx.hist("configure() rounds on one connection (own settings r1 -> r2)", "%s -> %s" % (c1, c2))
+        # a tenant that is ALREADY UP TO DATE (round r1 has nothing to do) before a tenant that has migrations to apply
+        base_done = rounds_base_r1_done(scratch, cfg, script, rev_index, base)
+        n = 0
+        for engine_mode in ("pysqlite", "recipe"):
+            for c1 in SETTINGS:
+                for c2 in SETTINGS:
+                    n += 1
+                    if c1[0] is True and c2[0] is None:
+                        continue
+                    if not thorough and not (c1 == c2 and c1[0] is None):
+                        continue
+                    kinds_for = (lambda g, pos: ["exception"] + nonexc) if thorough else (lambda g, pos: ["exception"])
+                    for case in twodb_cases(ctx, script, engine_mode, (c1, c2), scratch, cfg, [base_done, base_done], thorough, kinds_for,
+                                            pm_int=n % 2 == 0, layout="rounds"):
+                        pending.append(case)
+                        ctx.hist("steps", len(case[0]["plan"]))
+                        ctx.hist("rounds: up-to-date round before a round with migrations (own settings r1 -> r2)", "%s -> %s" % (c1, c2))
+
+
+def rounds_base_r1_done(scratch, cfg, script, rev_index, base):
+    """a database on which round r1 (its version table, its objects) is already at heads: r1 run alone, real code"""
+    done = os.path.join(scratch, "base_rounds_r1_done.sqlite")
+    shutil.copyfile(base, done)
+    cfg.set_main_option("db.url", "sqlite:///" + done)
+    cfg.attributes["verif_databases"] = [(ROUND_NAMES[0], {})]
+    res, _ = oi.run_command(cfg, script["bodies"], rev_index, script["cmd"], script["target"], "pysqlite", None,
+                            shifts={ROUND_NAMES[0]: 0})
+    assert res == "ok", res
+    return done
 
 
 # ------------------------------------------------------------------------------------------ offline (--sql) stream
@@ -1184,6 +1221,8 @@ def search(ctx):
 
 def check_witness(ctx, finding):
     """replays the witness of a known finding on the real code; returns what fails (None = no longer reproduces)"""
+    if finding["id"] == "C04-F2":
+        return check_witness_f2(ctx, finding)
     if finding["id"] != "C04-F1":
         return None
     w = finding["witness"]
@@ -1201,7 +1240,43 @@ def check_witness(ctx, finding):
     return None
 
 
+def classify_f2(failure):
+    """C04-F2 only: layout `rounds`, the judged round is the second one, the round before it had NOTHING to do (its version table
+    was already at heads), the real context of the judged round shows _in_external_transaction=True although no caller owns a
+    transaction, and the outcome is exactly "applied but not recorded": that round's version table holds no row."""
+    i = failure.get("input") or {}
+    if i.get("runner") != "rounds" or "multi" not in i or not (i.get("config") or {}).get("first_round_up_to_date"):
+        return None
+    m = i["multi"]
+    fin = ((failure.get("impl") or {}).get("final") or {})
+    shape_ok_ = failure.get("what", "").startswith("incomplete") or (failure.get("tags") and set(failure["tags"]) <= {"nonTxnOk", "perMigOk"})
+    if m.get("db") == 1 and len(m.get("seen") or []) > 2 and m["seen"][2] is True and m["seen"][:2] == m.get("own") and shape_ok_ \
+            and fin.get("rows") == []:
+        return "C04-F2"
+    return None
+
+
+def check_witness_f2(ctx, finding):
+    w = finding["witness"]
+    script = TWODB_SCRIPT
+    rev_index = {r["id"]: i for i, r in enumerate(script["hist"])}
+    with oi.Scratch() as scratch:
+        base = oi.new_db(scratch, "base_rounds.sqlite")
+        cfg = oi.make_twodb_dir(scratch, script["hist"], layout="rounds")
+        done = rounds_base_r1_done(scratch, cfg, script, rev_index, base)
+        res, orc, fins = twodb_execute(scratch, cfg, script, rev_index, [done, done], w["engine"], [tuple(c) for c in w["calls"]], None,
+                                       False, "rounds")
+    seen = orc.steps[-1].get("seen") if orc.steps else None
+    if res == "ok" and seen and seen[2] is True and fins[1]["rows"] == [] and fins[1]["objs"]:
+        return ("round r1 had nothing to do; round r2 ran both migrations (its tables exist) with _in_external_transaction=True and its "
+                "version table is empty after the connection was closed")
+    return None
+
+
 def classify(failure):
+    f2 = classify_f2(failure)
+    if f2:
+        return f2
     """C04-F1 only: the later database, its own call did not pass transactional_ddl, the earlier call passed True, the real
     context shows exactly that leak (and no other flag differs from the call's own settings), and only the clauses that
     depend on transactional_ddl being false are violated."""
